@@ -22,7 +22,7 @@ var c04Alphabet = []string{"a", "e", "1", ".", "-", "+", "/", "*", "'", "\"", "<
 
 var c04Fragments = []string{"abc", "x_1", "12", "3.5", "1e5", "2E-3", ".5", "5.", "-7", "'it''s'", "\"q\"", "'open", "/* c */", "/*open", "// line", "# hash", "<=", "<>", ">=", "<<", ">>", "!=", "{{", "}}", "{{{", "}}}", "{{#if a}}", "{{/a}}", "{{! note }}",
 	"\r\n", "\n\r", "\t", "  ", ",", ";", "\"a,b\"", "\"\"", "AND", "not", "Ünï", "шляпа", "€", "￿", "￾", "😀", "-", ".", "/", "e", "E+", "1e", "1e+", "--", "..", "-.", "-.5",
-	"1e\u22125", "2.5E\u221210", "\u2212", "\u22127", "1E\uff0b3", "1e\u2013 5", "1\u20442", "3\u00b75", "1\u066b5", "\uff11\uff12", "0x1F", "0b101", "1_000", "1'000"}
+	"1e00001", "2.5E-12345", "1e123456x", "7e+00000", "{{! a } b }}", "{{!}x}}", "{{! }} }", "{{!}", "{{! } }}", "1e\u22125", "2.5E\u221210", "\u2212", "\u22127", "1E\uff0b3", "1e\u2013 5", "1\u20442", "3\u00b75", "1\u066b5", "\uff11\uff12", "0x1F", "0b101", "1_000", "1'000"}
 
 func randomTokenizerInput(r *mon.Rng, maxParts int) string {
 	var b strings.Builder
@@ -196,7 +196,7 @@ func buildC04(cfg *mon.Config) []*mon.Sub {
 		Floor: 1000,
 		Gen: func(emit func(string)) {
 			r := cfg.Rng("c04-csvcfg")
-			seps := []rune{'\t', ';', '|', '~', 0x7f, 0x80, 0xa0, 0xa7, 0xff, 0x100, 0x2028, 0x20ac, 0xfffd, 0xfffe}
+			seps := []rune{' ', '\t', ';', '|', '~', 0x7f, 0x80, 0xa0, 0xa7, 0xff, 0x100, 0x2028, 0x20ac, 0xfffd, 0xfffe}
 			quotes := []rune{'\'', '"', '`', 0xab, 0xb4, 0x2019, 0xfffe}
 			for i := 0; i < cfg.N(6000, 300000); i++ {
 				ss := []rune{mon.Pick(r, seps)}
@@ -286,6 +286,7 @@ func buildC04(cfg *mon.Config) []*mon.Sub {
 	subs = append(subs, &mon.Sub{
 		Name: "many-distinct-words-one-instance", Rule: fmt.Sprintf("%d x 250000 random identifiers of 8 letters and digits (practically all distinct), separated by single blanks (inside one tag for the mustache tokenizer), streamed through ONE instance of a built-in tokenizer, input after input, on 4 instances of each of the 4 tokenizers; every token value is compared with the text at its place as it arrives (same oracle, at a volume where anything remembered per spelling is exercised); a case is one tokenizer instance", cfg.N(4, 40)),
 		Exhaustive: true, DistinctByGen: true, Floor: 16,
+		Batch: 1,
 		Gen: func(emit func(string)) {
 			for inst := 0; inst < 4; inst++ {
 				for _, k := range builtinTokenizers {
